@@ -17,7 +17,7 @@ def main():
     ap = argparse.ArgumentParser()
     ap.add_argument('prop'); ap.add_argument('--mode', default='search'); ap.add_argument('--seed', type=int, default=0)
     ap.add_argument('--budget', type=float, default=8); ap.add_argument('--tier', default='quick')
-    ap.add_argument('--file'); ap.add_argument('--focus')
+    ap.add_argument('--file'); ap.add_argument('--focus'); ap.add_argument('--models')
     a = ap.parse_args()
     h = importlib.import_module('h_' + a.prop.lower())
     out = dict(property=a.prop, evaluations=0, distinct=0, failures=[], rule=h.RULE, samples=[])
@@ -29,6 +29,17 @@ def main():
         print(json.dumps(out, default=str)); return
     rng = random.Random(a.seed)
     t0 = time.time(); seen = set(); failkinds = {}
+    # the verifier's counter-models first: replayed on the real code where they denote a complete input
+    if a.models and hasattr(h, 'from_model'):
+        for m in json.load(open(a.models)):
+            try: ci = h.from_model(m)
+            except Exception: ci = None
+            if ci is None: continue
+            out['evaluations'] += 1
+            r = safe_run(h, ci[0], ci[1])
+            if r is not None:
+                out['failures'].append(dict(kind=ci[0], input=ci[1], from_verifier_model=True, obligation=m.get('__obligation__'), **r))
+                break
     for kind, inp in h.cases(rng, a.tier):
         if time.time() - t0 > a.budget: break
         out['evaluations'] += 1
